@@ -1217,7 +1217,8 @@ def _tail_helper_body(model: Model, fi: FuncInfo, body: List[ast.stmt], caller_n
             hb2.extend(_unroll_literal_loop(c_))
         ren_done = True
     else:
-        hb2 = hb
+        # `for k in ("a", "b"): setattr(x, k, ..)` in a helper is the statements it abbreviates (as it is in the function itself)
+        hb2 = [y_ for st in hb for y_ in (_unroll_literal_loop(st) if isinstance(st, ast.For) and isinstance(st.iter, (ast.Tuple, ast.List)) else [st])]
         ren_done = False
     if multi_ret:
         conv = _assign_conv([(st if ren_done else _R().visit(clone_ast(st))) for st in hb2], assign_to, body[-1])
